@@ -77,3 +77,13 @@ Theorem C12_model_log_is_a_run :
     model_plog sc = p_log (prun (2 * w) (pinit [ps_ops sc] w) sched).
 Proof. exact model_plog_is_a_run. Qed.
 Print Assumptions C12_model_log_is_a_run.
+
+(* "submission blocks when the queue is full" as the walk the check applies to the
+   implementation's log (at every note: Submit calls returned - tasks ended <= workers + queue):
+   it holds of the log of EVERY schedule, hence of the model log of the correspondence check *)
+Theorem C12_blocks_ok_every_run :
+  forall progs workers sched,
+    NoDup (flat_map (fun ops => flat_map (fun o => match o with PSubmit t => [t] | _ => [] end) ops) progs) ->
+    blocks_ok workers (p_log (prun (2 * workers) (pinit progs workers) sched)) 0 = true.
+Proof. exact blocks_ok_every_run. Qed.
+Print Assumptions C12_blocks_ok_every_run.
